@@ -1,9 +1,10 @@
 """C11 -- saved, cached and stand-alone parsers behave like the original (DESIGN.md section 4, C11)."""
 import io
+import re
 import os
 import itertools
 
-from lark import Lark, Tree
+from lark import Lark, Tree, Transformer
 from lark.exceptions import UnexpectedInput, GrammarError
 from lark.tools.standalone import gen_standalone
 
@@ -47,7 +48,7 @@ MENU = [
     ('newline', 'start: line+\nline: A+ _NL\nA: "a"\n_NL: /\\n+/\n%ignore " "\n', 'a\n ', {}, None),
     ('qrule-placeholder', 'start: a [B] c?\n?a: A | "(" start ")"\n!c: "c" "!"?\nA: "a"\nB: "b"\n', 'ab()c!', {}, None),
     ('big-130', big_grammar(130), 'abcd', {}, None),
-    ('g-regex-flags', kw_grammar('', ''), 'abAB ', {'g_regex_flags': 2}, None),       # re.IGNORECASE as a global flag
+    ('g-regex-flags', kw_grammar('', ''), 'abAB ', {'g_regex_flags': re.I}, None),       # re.IGNORECASE as a global flag
     ('declare-postlex', 'start: (A | _X)+\nA: "a"\n%declare _X\n%ignore " "\n', 'a ', {}, None),
 ]
 for _s in ('', 'i'):
@@ -100,6 +101,11 @@ def observe_scan(p, text, start):
 OBSERVERS = {'parse': observe_parse, 'interactive': observe_interactive, 'scan': observe_scan}
 
 
+class _Up(Transformer):
+    def start(self, ch):
+        return ('transformed', len(ch))
+
+
 def derive(direct, gtext, opts, scratch, tag):
     """-> {'load': parser, 'cache': parser, 'standalone': parser} (or an exception object per entry)."""
     out = {}
@@ -123,14 +129,11 @@ def derive(direct, gtext, opts, scratch, tag):
         gen_standalone(direct, out=sio)
         ns = {'__name__': 'standalone_%s' % tag}
         exec(compile(sio.getvalue(), '<standalone %s>' % tag, 'exec'), ns)
-        kw = {}
-        if opts.get('use_bytes'):
-            kw['use_bytes'] = True
-        if opts.get('propagate_positions'):
-            kw['propagate_positions'] = True
-        if opts.get('g_regex_flags'):
-            kw['g_regex_flags'] = opts['g_regex_flags']
-        out['standalone'] = ns['Lark_StandAlone'](**kw)
+        # no keyword arguments: the generated module embeds the options it was generated with
+        out['standalone'] = ns['Lark_StandAlone']()
+        # ... and every instance made from the module is such a parser, whatever other instances were made before it
+        ns['Lark_StandAlone'](propagate_positions=not opts.get('propagate_positions', False), transformer=_Up())
+        out['standalone-again'] = ns['Lark_StandAlone']()
     except Exception as e:
         out['standalone'] = e
     return out
